@@ -257,7 +257,9 @@ func (ex *Exec) verifyFunc(fn *ssa.Function, caseParam string, caseLit Expr) *Fu
 		if pt, ok := fv.Type().Underlying().(*types.Pointer); ok {
 			ex.ncell++
 			cell := &Cell{ID: ex.ncell, Name: fv.Name(), T: pt.Elem()}
-			cell.Escaped = true
+			// a captured PARAMETER of the enclosing function that nobody assigns (the only store is the spill of the
+			// parameter itself, every closure only reads it) keeps its value across calls
+			cell.Escaped = !capturedReadOnlyParam(fn, fv)
 			v := ex.freshVal(st, pt.Elem(), "cap_"+fv.Name())
 			st.cells[cell] = v
 			freeCells[fv] = &Ptr{Cell: cell}
@@ -316,6 +318,23 @@ func (ex *Exec) verifyFunc(fn *ssa.Function, caseParam string, caseLit Expr) *Fu
 		penv := &CEnv{ex: ex, st: o.St, old: entry, vars: map[string]TV{}, fn: fn}
 		for k, v := range env.vars {
 			penv.vars[k] = v
+		}
+		// locals the contract describes ("local x = result of f") hold, in a postcondition, their value at the return
+		if o.Fr != nil && o.Fr.fn == fn {
+			var lenv *CEnv
+			for _, cl := range c.Clauses {
+				if cl.Kind != "local" || !tagActive(cl.Tags, ex.prop) {
+					continue
+				}
+				if lenv == nil {
+					lenv = ex.localEnv(o.Fr, o.St)
+				}
+				if v, ok := lenv.vars[cl.Names[0]]; ok {
+					if _, dup := penv.vars[cl.Names[0]]; !dup {
+						penv.vars[cl.Names[0]] = v
+					}
+				}
+			}
 		}
 		for i, r := range o.Ret {
 			n := fn.Signature.Results().At(i).Name()
@@ -574,4 +593,75 @@ func findLocalByDesc(fn *ssa.Function, desc string) *ssa.Alloc {
 		return nil
 	}
 	return cands[ord-1].alloc
+}
+
+// capturedReadOnlyParam: the free variable fv of closure fn is bound (at every MakeClosure of fn in its parent) to the
+// cell of a parameter of the parent, and that cell is written once (the spill of the parameter) and otherwise only read,
+// by the parent and by all the closures it is handed to.
+func capturedReadOnlyParam(fn *ssa.Function, fv *ssa.FreeVar) bool {
+	parent := fn.Parent()
+	if parent == nil {
+		return false
+	}
+	idx := -1
+	for i, f := range fn.FreeVars {
+		if f == fv {
+			idx = i
+		}
+	}
+	if idx < 0 {
+		return false
+	}
+	var alloc *ssa.Alloc
+	for _, b := range parent.Blocks {
+		for _, in := range b.Instrs {
+			mc, ok := in.(*ssa.MakeClosure)
+			if !ok || mc.Fn != fn || idx >= len(mc.Bindings) {
+				continue
+			}
+			a, ok := mc.Bindings[idx].(*ssa.Alloc)
+			if !ok || (alloc != nil && alloc != a) {
+				return false
+			}
+			alloc = a
+		}
+	}
+	if alloc == nil || alloc.Referrers() == nil {
+		return false
+	}
+	stores := 0
+	for _, r := range *alloc.Referrers() {
+		switch x := r.(type) {
+		case *ssa.Store:
+			if x.Addr != alloc {
+				return false
+			}
+			if _, isParam := x.Val.(*ssa.Parameter); !isParam {
+				return false
+			}
+			stores++
+		case *ssa.UnOp:
+		case *ssa.DebugRef:
+		case *ssa.MakeClosure:
+			cf, ok := x.Fn.(*ssa.Function)
+			if !ok {
+				return false
+			}
+			for i, bnd := range x.Bindings {
+				if bnd != alloc || i >= len(cf.FreeVars) || cf.FreeVars[i].Referrers() == nil {
+					continue
+				}
+				for _, rr := range *cf.FreeVars[i].Referrers() {
+					switch rr.(type) {
+					case *ssa.UnOp, *ssa.DebugRef:
+					default:
+						return false
+					}
+				}
+			}
+		default:
+			return false
+		}
+	}
+	return stores == 1
 }
